@@ -331,6 +331,78 @@ func runTaskCase(a args, tcase taskCase, idx int, shared *runner.TaskRunner) {
 
 var statusDraw = []int{1, 2, 126, 127, 128, 255}
 
+// runRepeatCase: a task whose command list contains blank entries (an empty script) is run several times in one
+// process - directly, as a struct copy (what the scheduler and the watcher run) and by two stages of one
+// pipeline. Every run executes exactly the declared non-blank commands, once each, in order.
+func runRepeatCase(a args, idx int, r *h.Rand) {
+	trace := filepath.Join(a.Work, fmt.Sprintf("rtrace.%d", idx))
+	os.Remove(trace)
+	defer os.Remove(trace)
+	tok := func(s string) string { return fmt.Sprintf("printf '%s\\n' >> '%s'", s, trace) }
+	t := task.NewTask()
+	t.Name = fmt.Sprintf("repeat%d", idx)
+	n := r.Range(2, 5)
+	var want []string
+	for i := 0; i < n; i++ {
+		if i > 0 && r.Chance(35) {
+			t.Commands = append(t.Commands, []string{"", " ", "\n"}[r.Intn(3)])
+		}
+		t.Commands = append(t.Commands, tok(fmt.Sprint("c", i)))
+		want = append(want, fmt.Sprint("c", i))
+	}
+	if r.Chance(30) {
+		t.Commands = append(t.Commands, "")
+	}
+	if r.Bool() {
+		t.Before = []string{tok("before")}
+		want = append([]string{"before"}, want...)
+	}
+	if r.Bool() {
+		t.After = []string{tok("after")}
+		want = append(want, "after")
+	}
+	declared := append([]string(nil), t.Commands...)
+	out.Begin(fmt.Sprintf("repeat#%d %q", idx, declared))
+	rn := newQuietRunner()
+	runs := 0
+	check := func(how string, times int) {
+		got := strings.Fields(h.ReadFile(trace))
+		os.Remove(trace)
+		var w []string
+		for k := 0; k < times; k++ {
+			w = append(w, want...)
+		}
+		runs++
+		if strings.Join(got, " ") != strings.Join(w, " ") {
+			sig := "commands-missing"
+			if len(got) > len(w) {
+				sig = "extra-commands-ran"
+			}
+			out.Viol("C06", sig+"/repeated-run", fmt.Sprintf("run %d (%s) of a task declared as %q executed %v, the statement requires %v", runs, how, declared, got, w), map[string]interface{}{"commands": declared, "run": runs, "how": how, "got": got, "want": w})
+		}
+	}
+	if err := rn.Run(t); err != nil {
+		out.Viol("C06", "repeat-run-failed", fmt.Sprintf("task with blank commands %q failed: %v", declared, err), declared)
+	}
+	check("direct", 1)
+	cp := *t
+	rn.Run(&cp)
+	check("struct copy", 1)
+	g, err := scheduler.NewExecutionGraph(&scheduler.Stage{Name: "s1", Task: t}, &scheduler.Stage{Name: "s2", Task: t, DependsOn: []string{"s1"}})
+	if err == nil {
+		sch := scheduler.NewScheduler(rn)
+		sch.VerifSetPause(200 * time.Microsecond)
+		sch.Schedule(g)
+		check("two stages of one pipeline", 2)
+	}
+	rn.Run(t)
+	check("direct again", 1)
+	lockedFinish(rn.Finish)
+	out.Count("cases", 1)
+	out.Count("repeated_runs", int64(runs))
+	out.Nontrivial("C06", fmt.Sprintf("repeat %q", declared))
+}
+
 func modeTask(a args) {
 	var cases []taskCase
 	rnd := h.NewRand(a.Seed, "task")
@@ -477,6 +549,14 @@ func modeTask(a args) {
 		}
 	}
 	h.Par(len(mine), 8, func(k int) { runTaskCase(a, cases[mine[k]], mine[k], nil) })
+	if a.Prop != "C07" {
+		for i := 0; i < a.n(60, 600); i++ {
+			r := h.NewRand(int64(rnd.U64()), "repeat")
+			if a.mine(i) {
+				runRepeatCase(a, 2000000+i, r)
+			}
+		}
+	}
 }
 
 // modeTaskPar: the same grammar, but 12 tasks at a time run concurrently on ONE TaskRunner —
